@@ -224,7 +224,23 @@ def rule_dag(ctx: Ctx) -> None:  # noqa: C901, PLR0915
     ctx.tri("5-dag", init, init.node, pos and kw, bool(edges) and pos != kw, "edges registered for positional AND keyword arguments",
             f"edges are registered only for {'positional' if pos else 'keyword'} arguments: dependencies passed the other way are missing from the task graph", f"argument loops {its}", key="args-and-kwargs")
     nested_ok = any("Iterable" in norm(f.node) or "isinstance(arg, (list" in norm(f.node) for f in sc.funcs)
-    ctx.tri("5-dag", init, init.node, nested_ok, False, "lazy items inside container arguments get an edge too", "", "handling of container arguments not recognised", key="containers")
+    # the container kinds whose items get an edge cover the kinds evaluate_lazy resolves items of (tuple, list, set; dict by its values):
+    # a narrower test (Sequence: no sets) leaves dependencies that ARE resolved at evaluation time out of the recorded graph
+    COVERS = {"Iterable": {"tuple", "list", "set", "dict"}, "Collection": {"tuple", "list", "set", "dict"}, "Container": {"tuple", "list", "set", "dict"}, "Sequence": {"tuple", "list"},
+              "MutableSequence": {"list"}, "Set": {"set"}, "AbstractSet": {"set"}, "tuple": {"tuple"}, "list": {"list"}, "set": {"set"}, "frozenset": set(), "dict": {"dict"}, "Mapping": {"dict"}}
+    tested_kinds: set[str] = set()
+    any_container_test = False
+    for f in sc.funcs:
+        for c in [c for c in ast.walk(f.node) if isinstance(c, ast.Call) and dotted(c.func) == "isinstance" and len(c.args) == 2]:
+            names_ = [norm(x).rsplit(".", 1)[-1] for x in ast.walk(c.args[1]) if isinstance(x, (ast.Name, ast.Attribute))]
+            if any(nm in COVERS for nm in names_) and "_LazyFunction" not in names_:
+                any_container_test = True
+                for nm in names_:
+                    tested_kinds |= COVERS.get(nm, set())
+    missing_kinds = sorted({"tuple", "list", "set"} - tested_kinds)
+    ctx.tri("5-dag", init, init.node, nested_ok and not (any_container_test and missing_kinds), any_container_test and bool(missing_kinds), "lazy items inside container arguments (tuple, list, set) get an edge too",
+            f"only some container kinds have the edges of their items registered - {missing_kinds} are left out although evaluate_lazy resolves lazy items inside them: the recorded task graph lacks dependencies that exist at evaluation time",
+            "handling of container arguments not recognised", key="containers")
     ids = [s_ for s_ in walk_no_nested(init.node) if isinstance(s_, (ast.Assign, ast.AugAssign)) and "_counter" in norm(s_)]
     inc = [s_ for s_ in ids if isinstance(s_, ast.AugAssign) and isinstance(s_.op, ast.Add)]
     ctx.tri("5-dag", init, ids[0] if ids else init.node, bool(inc) and any(isinstance(s_, ast.Assign) and "self._id" in norm(s_.targets[0]) for s_ in ids), bool(ids) and not inc and not any("+ 1" in norm(s_) for s_ in ids),
